@@ -1150,3 +1150,130 @@ VARIANTS['C19'] += [
     V('neutral: days, seconds and microseconds of a delta read into locals',
       [('dashlive/utils/date_time.py', "    result += timescale * delta.seconds\n", "    secs_of_day = delta.seconds\n    result += timescale * secs_of_day\n")], None),
 ]
+
+# ---------------------------------------------------------------- a regression made in refactored code
+# Each of these is one of the stored behaviour-preserving refactorings (neutral/<set>/refactorN.diff, applied
+# first) plus ONE breaking edit inside the code the refactoring introduced.  The refactoring alone must stay
+# quiet (it is a neutral variant of its own); with the edit the rule must still fire - this is what keeps the
+# normal form (E11) honest: what it rewrites it must not hide.
+import os as _os
+_NEUTRAL = _os.path.join(_os.path.dirname(_os.path.dirname(_os.path.abspath(__file__))), 'neutral')
+
+
+def _layered(prop, name, patch, edits, rule, construct=''):
+    VARIANTS[prop].append(V(f'{name} (in refactored code, {patch})', edits, rule, construct,
+                            patch=_os.path.join(_NEUTRAL, patch)))
+
+
+_layered('C12', 'period helper no longer compares the parent stream', 'RE12/refactor2.diff',
+         [(MRQ, "        if period is None or period.parent_pk != current_mps.pk:\n            logging.warning('Period not found: mps=%s ppk=%d', mps_name, ppk)\n            return None\n",
+           "        if period is None:\n            logging.warning('Period not found: mps=%s ppk=%d', mps_name, ppk)\n            return None\n")],
+         'R12.1')
+_layered('C06', 'running end time replaced, not advanced', 'RE06/refactor1.diff',
+         [(REPF2, "                segment_end_time += seg.duration\n", "                segment_end_time = seg.duration\n")], 'R06.4')
+_layered('C06', 'start taken before the tfdt is applied', 'RE06/refactor1.diff',
+         [(REPF2, "                if atom.traf.find_child('tfdt') is not None:\n                    # an explicit decode time overrides the running total\n                    segment_end_time = atom.traf.tfdt.base_media_decode_time\n                segment_start_time = segment_end_time\n",
+           "                segment_start_time = segment_end_time\n                if atom.traf.find_child('tfdt') is not None:\n                    # an explicit decode time overrides the running total\n                    segment_end_time = atom.traf.tfdt.base_media_decode_time\n")], 'R06.4')
+_layered('C16', 'time window of a manifest error has no end', 'RE16/refactor3.diff',
+         [(f'{RH}/manifest_requests.py', "        return window_start <= now <= window_end\n", "        return window_start <= now\n")], 'R16.7')
+_layered('C16', 'manifest error selected by update count or later', 'RE16/refactor3.diff',
+         [(f'{RH}/manifest_requests.py', "            return pos == options.updateCount\n", "            return pos <= options.updateCount\n")], 'R16.7')
+_layered('C16', 'failure limit helper never resets its counter', 'RE16/refactor3.diff',
+         [(f'{RH}/base.py', "                self.reset_error_counter(usage, code)\n                return True\n", "                return True\n")], 'R16.7')
+_layered('C19', 'compiled offset pattern not anchored', 'RE08/refactor3.diff',
+         [(DT, "zero_utc_offset_re = re.compile('[+-]00:00$')\n", "zero_utc_offset_re = re.compile('[+-]00:00')\n")], 'R19.3')
+_layered('C10', 'protection boxes appended with the first key instead of the default key', 'RE10/refactor1.diff',
+         [(MRQ, "            atom.moov.append_child(create_pssh(representation.default_kid))\n", "            atom.moov.append_child(create_pssh(representation.kids[0]))\n")], '*')
+_layered('C04', 'box size measured from the start of the stream', 'RE03/refactor1.diff',
+         [(MP4, "        self.size = end - self.position\n", "        self.size = end\n")], '*')
+_layered('C04', 'saio offsets read with the 64 bit layout for version 0', 'RE03/refactor2.diff',
+         [(MP4, "        entry = struct.Struct('>I' if rv[\"version\"] == 0 else '>Q')\n", "        entry = struct.Struct('>I' if rv[\"version\"] != 0 else '>Q')\n")], '*')
+_layered('C03', 'first cenc sample measured from the wrong base', 'RE03/refactor2.diff',
+         [(MP4, "        return senc.position + senc.samples[0].offset - base\n", "        return senc.position + senc.samples[0].offset + base\n")], '*')
+
+VARIANTS['C03'] += [
+    V('saio offset adds the base instead of subtracting it',
+      [(MP4, "        return senc_sample_pos - base_data_offset\n", "        return senc_sample_pos + base_data_offset\n")],
+      'R03.2', 'find_first_cenc_sample'),
+    V('saio offset always relative to the moof, whatever base the tfhd declares',
+      [(MP4, "        if tfhd is not None:\n            base_data_offset = tfhd.base_data_offset\n        if base_data_offset is None:\n            moof = self.find_atom('moof')\n",
+        "        if base_data_offset is None:\n            moof = self.find_atom('moof')\n")],
+      'R03.2', 'find_first_cenc_sample'),
+    V('saio offset skips the first senc entry offset',
+      [(MP4, "        senc_sample_pos = senc.position + senc.samples[0].offset\n", "        senc_sample_pos = senc.position\n")],
+      'R03.2', 'find_first_cenc_sample'),
+    V('neutral: saio base chosen with a conditional expression',
+      [(MP4, "        senc_sample_pos = senc.position + senc.samples[0].offset\n        return senc_sample_pos - base_data_offset\n",
+        "        first = senc.samples[0]\n        return (senc.position - base_data_offset) + first.offset\n")], None),
+]
+
+VARIANTS['C04'] += [
+    V('descriptor size groups written least significant first',
+      [(MP4, "            sizes.insert(0, size & 0x7f)\n            size = size >> 7\n        sizes.insert(0, size & 0x7f)\n",
+        "            sizes.append(size & 0x7f)\n            size = size >> 7\n        sizes.append(size & 0x7f)\n")], 'R04.9', 'Descriptor.encode'),
+    V('descriptor size continuation flag on the last byte instead of the others',
+      [(MP4, "            flag = 0x80 if sizes else 0x00\n", "            flag = 0x00 if sizes else 0x80\n")], 'R04.9', 'Descriptor.encode'),
+    V('descriptor size split at eight bits',
+      [(MP4, "        while size > 0x7f:\n            sizes.insert(0, size & 0x7f)\n", "        while size > 0xff:\n            sizes.insert(0, size & 0x7f)\n")],
+      'R04.9', 'Descriptor.encode'),
+    V('descriptor header reader accumulates least significant first',
+      [(MP4, "            size = (size << 7) + (b & 0x7f)\n", "            size = size + ((b & 0x7f) << (7 * (header_size - 2)))\n")], 'R04.9', 'Descriptor.encode'),
+    V('neutral: descriptor size groups collected and then reversed',
+      [(MP4, "            sizes.insert(0, size & 0x7f)\n            size = size >> 7\n        sizes.insert(0, size & 0x7f)\n",
+        "            sizes.append(size & 0x7f)\n            size = size >> 7\n        sizes.append(size & 0x7f)\n        sizes.reverse()\n")], None),
+    V('neutral: descriptor size bytes built by a comprehension over shifts',
+      [(MP4, "        while sizes:\n            a = sizes.pop(0)\n            flag = 0x80 if sizes else 0x00\n            d.write('B', 'size', a + flag)\n",
+        "        last = len(sizes) - 1\n        for idx, a in enumerate(sizes):\n            d.write('B', 'size', a if idx == last else a | 0x80)\n")], None),
+]
+
+VARIANTS['C06'] += [
+    V('media duration taken from the running decode time',
+      [(REPF2, "            rv.mediaDuration = 0\n            for seg in rv.segments[1:]:\n                rv.mediaDuration += seg.duration\n",
+        "            rv.mediaDuration = segment_end_time\n")], 'R06.12', 'Representation.load'),
+    V('constructor sums the durations from the second fragment',
+      [(REPF2, "            self.mediaDuration = sum([s.duration for s in self.segments[1:]])\n",
+        "            self.mediaDuration = sum([s.duration for s in self.segments[2:]])\n")], 'R06.12', 'Representation.__init__'),
+    V('neutral: media duration summed into a local first',
+      [(REPF2, "            rv.mediaDuration = 0\n            for seg in rv.segments[1:]:\n                rv.mediaDuration += seg.duration\n",
+        "            fragments = rv.segments[1:]\n            total = 0\n            for frag in fragments:\n                total += frag.duration\n            rv.mediaDuration = total\n")], None),
+    V('neutral: media duration by sum() over a generator',
+      [(REPF2, "            rv.mediaDuration = 0\n            for seg in rv.segments[1:]:\n                rv.mediaDuration += seg.duration\n",
+        "            rv.mediaDuration = sum(frag.duration for frag in rv.segments[1:])\n")], None),
+]
+
+MOF = 'dashlive/server/options/manifest_options.py'
+_RELABEL = [(MOF, "from dashlive.utils.date_time import from_isodatetime, to_iso_datetime\n",
+             "from dashlive.utils.date_time import from_isodatetime, to_iso_datetime\nfrom dashlive.utils.timezone import UTC\n"),
+            (MOF, "        raise err\n    return value\n",
+             "        raise err\n    if isinstance(value, datetime.datetime):\n        value = value.replace(tzinfo=UTC())\n    return value\n")]
+_RELABEL_OK = [_RELABEL[0],
+               (MOF, "        raise err\n    return value\n",
+                "        raise err\n    if isinstance(value, datetime.datetime) and value.tzinfo is None:\n        value = value.replace(tzinfo=UTC())\n    return value\n")]
+VARIANTS['C08'] += [
+    V('explicit start relabelled as UTC whatever offset it carries', _RELABEL, 'R08.10', 'ast_from_string'),
+    V('neutral: a start without a zone is taken as UTC', _RELABEL_OK, None),
+]
+VARIANTS['C19'] += [
+    V('explicit start relabelled as UTC whatever offset it carries', _RELABEL, 'R19.7', 'ast_from_string'),
+    V('neutral: a start without a zone is taken as UTC', _RELABEL_OK, None),
+    V('parsed time of day relabelled after a %z format',
+      [(DT, '"%H:%M:%SZ").replace(tzinfo=UTC()).time()', '"%H:%M:%S%z").replace(tzinfo=UTC()).time()')], 'R19.7', 'from_isodatetime'),
+]
+
+VARIANTS['C19'] += [
+    V('fraction digits stripped of zeros on both sides before padding',
+      [(DT, "kwargs['microsecond'] = int(frac[:6].ljust(6, '0'), 10)", "kwargs['microsecond'] = int(frac[:6].strip('0').ljust(6, '0'), 10)")],
+      'R19.2', 'from_isodatetime'),
+    V('fraction digits padded on the left',
+      [(DT, "kwargs['microsecond'] = int(frac[:6].ljust(6, '0'), 10)", "kwargs['microsecond'] = int(frac[:6].zfill(6), 10)")],
+      'R19.2', 'from_isodatetime'),
+    V('fraction cut to milliseconds',
+      [(DT, "kwargs['microsecond'] = int(frac[:6].ljust(6, '0'), 10)", "kwargs['microsecond'] = int(frac[:3].ljust(6, '0'), 10)")],
+      'R19.2', 'from_isodatetime'),
+    V('neutral: trailing zeros dropped before the fraction is padded again',
+      [(DT, "kwargs['microsecond'] = int(frac[:6].ljust(6, '0'), 10)", "kwargs['microsecond'] = int(frac[:6].rstrip('0').ljust(6, '0'), 10)")],
+      None),
+    V('neutral: fraction padded by appending zeros and cutting',
+      [(DT, "kwargs['microsecond'] = int(frac[:6].ljust(6, '0'), 10)", "digits = (frac + '000000')[:6]\n                    kwargs['microsecond'] = int(digits, 10)")],
+      None),
+]
